@@ -125,41 +125,48 @@ def roleMatchesUnrepaired (ans : RoleAns) (want : Role) : Option (Option Bool) :
   | .empty => none
   | .err => some none
 
+/-- the stored connection `_switchTarget` may reuse: same address and `Error() == nil` -/
+def reuseOf (s : St) (addr : Addr) (isMaster : Bool) : Option Conn :=
+  let cur := if isMaster then s.mConn else s.rConn
+  let curAddr := if isMaster then s.mAddr else s.rAddr
+  if curAddr == some addr then
+    match cur with
+    | some c => if c.closed then none else some c
+    | none => none
+  else none
+
+/-- `target.Close()` when the target is the stored connection: it stays stored, closed -/
+def closeStored (s : St) (isMaster : Bool) (ans : RoleAns) : St :=
+  if isMaster then { s with mConn := s.mConn.map fun c => { c with closed := true, lastRole := ans } }
+  else { s with rConn := s.rConn.map fun c => { c with closed := true, lastRole := ans } }
+
+/-- `c.mAddr.Store(addr); c.mConn.Swap(target)` (resp. rAddr / rConn) -/
+def install (s : St) (addr : Addr) (isMaster : Bool) (ans : RoleAns) : St :=
+  if isMaster then { s with mAddr := some addr, mConn := some ⟨addr, false, ans⟩ }
+  else { s with rAddr := some addr, rConn := some ⟨addr, false, ans⟩ }
+
 /-- `_switchTarget(addr, isMaster)`; returns the new state, world, actions and the error if any -/
 def switchTarget (s : St) (w : World) (addr : Addr) (isMaster : Bool) : St × World × List Act × Option SwErr :=
   if s.stopped then (s, w, [], none) else
   let cur := if isMaster then s.mConn else s.rConn
-  let curAddr := if isMaster then s.mAddr else s.rAddr
-  -- reuse the stored connection if the address is the same and the connection is healthy
-  let reuse : Option Conn :=
-    if curAddr == some addr then
-      match cur with
-      | some c => if c.closed then none else some c
-      | none => none
-    else none
-  let dialed := reuse.isNone
+  let dialed := (reuseOf s addr isMaster).isNone
   if dialed && !w.nodeDialOk addr then (s, w, [.dial addr], some .dial) else
   let pre : List Act := if dialed then [.dial addr] else []
   let ans := w.roleOf addr
-  let w := w.popRole addr
   let want := if isMaster then Role.master else Role.slave
-  -- `target.Close()` on failure: if the target was the stored connection, that one is now closed
-  let closeStored (s : St) : St :=
-    if dialed then s
-    else if isMaster then { s with mConn := s.mConn.map fun c => { c with closed := true, lastRole := ans } }
-    else { s with rConn := s.rConn.map fun c => { c with closed := true, lastRole := ans } }
   match roleMatches ans want with
-  | none => (closeStored s, w, pre ++ [.role addr, .close addr], some .roleErr)
-  | some false => (closeStored s, w, pre ++ [.role addr, .close addr], some .wrongRole)
+  | none =>
+    -- `target.Close()`: if the target was the stored connection, that one is now closed
+    (if dialed then s else closeStored s isMaster ans, w.popRole addr, pre ++ [.role addr, .close addr], some .roleErr)
+  | some false =>
+    (if dialed then s else closeStored s isMaster ans, w.popRole addr, pre ++ [.role addr, .close addr], some .wrongRole)
   | some true =>
     -- store; the previous connection is closed unless it is the same object
     let closeOld : List Act :=
       match cur with
       | some c => if dialed then [.close c.addr] else []
       | none => []
-    let s := if isMaster then { s with mAddr := some addr, mConn := some ⟨addr, false, ans⟩ }
-             else { s with rAddr := some addr, rConn := some ⟨addr, false, ans⟩ }
-    (s, w, pre ++ [.role addr] ++ closeOld, none)
+    (install s addr isMaster ans, w.popRole addr, pre ++ [.role addr] ++ closeOld, none)
 
 /-- `pickReplica`: the first replica without `s-down-time` (the real code picks a random eligible one;
     the suite offers at most one) -/
@@ -198,10 +205,34 @@ def listWatch (m : Mode) (v : SentinelView) : Except LwErr (Option Addr × Optio
 def addSentinels (l : List Addr) (news : List Addr) : List Addr :=
   news.foldl (fun acc a => if acc.contains a then acc else a :: acc) l
 
-def moveToBack (l : List Addr) : List Addr :=
-  match l with
-  | [] => []
-  | a :: r => r ++ [a]
+/-- `c.sentinels.MoveToBack(e)`: the element that was tried (not necessarily the front any more:
+    sentinels it reported were pushed in front of it) -/
+def moveToBack (l : List Addr) (a : Addr) : List Addr := l.erase a ++ [a]
+
+/-- `c.sConn = …` / the state of the kept sentinel connection -/
+def withSConn (s : St) (c : Conn) : St := { s with sConn := some c }
+
+/-- after a successful `listWatch`: `_addSentinel` for every reported sentinel, and the ghost lists -/
+def noteReported (s : St) (m r : Option Addr) (others : List Addr) : St :=
+  { s with sentinels := addSentinels s.sentinels others,
+           reportedM := (match m with | some x => [x] | none => []) ++ s.reportedM,
+           reportedR := (match r with | some x => [x] | none => []) ++ s.reportedR }
+
+/-- the `switch` over the client mode in `_refresh` -/
+def switchByMode (s : St) (w : World) (m r : Option Addr) : St × World × List Act × Option SwErr :=
+  match s.mode with
+  | .replicaOnly => switchTarget s w (r.getD 0) false
+  | .masterOnly => switchTarget s w (m.getD 0) true
+  | .both =>
+    let ra := switchTarget s w (m.getD 0) true
+    let rb := switchTarget ra.1 ra.2.1 (r.getD 0) false
+    (rb.1, rb.2.1, ra.2.2.1 ++ rb.2.2.1, if ra.2.2.2.isSome then ra.2.2.2 else rb.2.2.2)
+
+/-- the kept sentinel connection is reused iff it is this address and healthy -/
+def keepSConn (s : St) (a : Addr) : Bool :=
+  match s.sConn with
+  | some c => c.addr == a && !c.closed
+  | none => false
 
 /-- one iteration of the `_refresh` loop for the sentinel at the front; `true` = success (break) -/
 def tryFront (s : St) (w : World) : St × World × List Act × Bool :=
@@ -209,34 +240,20 @@ def tryFront (s : St) (w : World) : St × World × List Act × Bool :=
   | [] => (s, w, [], false)
   | a :: _ =>
     -- (re)connect unless the kept sentinel connection is this address and healthy
-    let keep := match s.sConn with
-      | some c => c.addr == a && !c.closed
-      | none => false
+    let keep := keepSConn s a
     let closeOld : List Act := if keep then [] else match s.sConn with
       | some c => [.close c.addr]
       | none => []
-    let s1 := if keep then s else { s with sConn := some ⟨a, false, .err⟩ }
+    let s1 := if keep then s else withSConn s ⟨a, false, .err⟩
     let acts0 := if keep then [] else closeOld ++ [.dial a]
-    let v := w.sent a
-    if !keep && !v.dialOk then (s1, w, acts0, false) else
-    match listWatch s.mode v with
-    | .error _ =>
-      ({ s1 with sConn := some ⟨a, true, .err⟩ }, w, acts0 ++ [.listWatch a, .close a], false)
+    if !keep && !(w.sent a).dialOk then (s1, w, acts0, false) else
+    match listWatch s.mode (w.sent a) with
+    | .error _ => (withSConn s1 ⟨a, true, .err⟩, w, acts0 ++ [.listWatch a, .close a], false)
     | .ok (m, r, others) =>
-      let s2 := { s1 with sentinels := addSentinels s1.sentinels others,
-                          reportedM := (match m with | some x => [x] | none => []) ++ s1.reportedM,
-                          reportedR := (match r with | some x => [x] | none => []) ++ s1.reportedR }
-      let (s3, w3, acts, err) :=
-        match s.mode with
-        | .replicaOnly => switchTarget s2 w (r.getD 0) false
-        | .masterOnly => switchTarget s2 w (m.getD 0) true
-        | .both =>
-          let (sa, wa, aa, ea) := switchTarget s2 w (m.getD 0) true
-          let (sb, wb, ab, eb) := switchTarget sa wa (r.getD 0) false
-          (sb, wb, aa ++ ab, if ea.isSome then ea else eb)
-      match err with
-      | none => (s3, w3, acts0 ++ [.listWatch a] ++ acts, true)
-      | some _ => ({ s3 with sConn := some ⟨a, true, .err⟩ }, w3, acts0 ++ [.listWatch a] ++ acts ++ [.close a], false)
+      let res := switchByMode (noteReported s1 m r others) w m r
+      match res.2.2.2 with
+      | none => (res.1, res.2.1, acts0 ++ [.listWatch a] ++ res.2.2.1, true)
+      | some _ => (withSConn res.1 ⟨a, true, .err⟩, res.2.1, acts0 ++ [.listWatch a] ++ res.2.2.1 ++ [.close a], false)
 
 /-- the `_refresh` loop: try the sentinel at the front; on failure move it to the back; stop when the
     original head is at the front again. `budget` bounds the iterations (sentinels known + reported). -/
@@ -247,7 +264,7 @@ def refreshLoop (head : Addr) : (budget : Nat) → St → World → List Act →
     let (s1, w1, a1, ok) := tryFront s w
     if ok then (s1, w1, acts ++ a1, true)
     else
-      let s2 := { s1 with sentinels := moveToBack s1.sentinels }
+      let s2 := { s1 with sentinels := moveToBack s1.sentinels (s.sentinels.headD 0) }
       match s2.sentinels with
       | [] => (s2, w1, acts ++ a1, false)
       | f :: _ => if f == head then (s2, w1, acts ++ a1, false)
